@@ -105,6 +105,60 @@ open Pko.Drv.C13 in
 theorem check_self (o : Out) : check o o = none := by
   cases o <;> simp [check]
 
+/-- the multiset difference of a list and a rearrangement of it is empty -/
+theorem msub_perm {a b : List Int} (h : a ~ b) : Pko.Drv.C13.msub a b = [] := by
+  unfold Pko.Drv.C13.msub
+  induction b generalizing a with
+  | nil => simpa using h.eq_nil
+  | cons x r ih =>
+    simp only [foldl_cons]
+    apply ih
+    have := h.erase x
+    simpa using this
+
+/-- the ids the monitor reads off the model's printed phases are the ids of the phases' objects -/
+theorem idsOf_toOut (name inst : String) (ps : List Phase) :
+    Pko.Drv.C13.idsOf (ps.map fun p =>
+        { name := Pko.Drv.C13.esc p.name, objs := p.objs.map (Pko.Drv.C13.toOObj name inst) })
+      = ((ps.map fun p => p.objs).flatten).map fun o => o.id := by
+  induction ps with
+  | nil => rfl
+  | cons p r ih =>
+    simp only [Pko.Drv.C13.idsOf, map_cons, flatten_cons, map_append, map_map] at ih ⊢
+    rw [ih]
+    rfl
+
+/-- switching validation off removes a reason to fail, never adds one; `survivors` does not look at it -/
+theorem mustFail_novalidate {pkg : Pkg} (h : mustFail pkg = none) :
+    mustFail { pkg with validate := false } = none := by
+  have h1 : candidates { pkg with validate := false } = candidates pkg := rfl
+  have h2 : parsed { pkg with validate := false } = parsed pkg := rfl
+  have h3 : entryBroken { pkg with validate := false } = entryBroken pkg := rfl
+  simp only [mustFail, h1, h2, h3] at h ⊢
+  split at h
+  · simp at h
+  rename_i c1
+  split at h
+  · simp at h
+  rename_i c2
+  split at h
+  · simp at h
+  rename_i c3
+  split at h
+  · simp at h
+  rename_i c4
+  split at h
+  · simp at h
+  split at h
+  · simp at h
+  rename_i c6
+  split at h
+  · simp at h
+  rename_i c7
+  rw [if_neg c1, if_neg c2, if_neg c3, if_neg c4]
+  simp only [Bool.false_and, Bool.false_eq_true, if_false]
+  rw [if_neg c6, if_neg c7]
+
 theorem rot_perm {α : Type} (k : Nat) (l : List α) : (Pko.Drv.C13.rot k l) ~ l := by
   unfold Pko.Drv.C13.rot
   exact perm_append_comm.trans (by rw [take_append_drop])
